@@ -10,6 +10,7 @@ import (
 	"golang.org/x/tools/go/packages"
 
 	"rocheck/internal/check"
+	"rocheck/internal/load"
 	"rocheck/internal/model"
 )
 
@@ -566,5 +567,90 @@ func verifControlSharedSeed[T any, K comparable](key func(T) K) func(Observable[
 		},
 		map[K]T{},
 	)
+}
+`
+
+// APPLY-AT-BUILD-TIME: operators are applied when the pipeline is built, not when it is subscribed.
+func ruleApplyAtBuildTime() check.Rule {
+	return check.Rule{
+		Name:        "APPLY-AT-BUILD-TIME",
+		NeedControl: true,
+		Doc:         "inside a subscribe closure no operator value that comes from outside it (a parameter, or a variable assigned from parameters: a func(Observable[A]) Observable[B]) is applied to an observable: the application would be repeated for every subscription, so whatever state the operator keeps per application — the subject and reference count of Share, a connectable — is created per subscriber and nothing is shared: two subscribers of an instrumented pipeline that contains Share subscribe the source twice, which the same pipeline without the instrumentation does not",
+		Run: func(c *check.Ctx) {
+			m := c.M
+			n := 0
+			for _, sc := range m.SCs {
+				if !c.Armed(sc) && !check.IsControlName(sc.Name) {
+					continue
+				}
+				info := sc.Pkg.TypesInfo
+				k := 0
+				ast.Inspect(sc.Lit.Body, func(x ast.Node) bool {
+					call, ok := x.(*ast.CallExpr)
+					if !ok || len(call.Args) != 1 {
+						return true
+					}
+					id, ok := ast.Unparen(call.Fun).(*ast.Ident)
+					if !ok {
+						return true
+					}
+					v, ok := objOf(info, id).(*types.Var)
+					if !ok {
+						return true
+					}
+					sig, ok := v.Type().Underlying().(*types.Signature)
+					if !ok || !isOperatorSig(m, sig) {
+						return true
+					}
+					if an := load.NamedOf(info.TypeOf(call.Args[0])); an == nil || an.Obj().Name() != "Observable" {
+						return true // a selector of the error (Catch), not an operator applied to an observable
+					}
+					// the operator value originates outside the subscribe closure: a parameter of an enclosing function, or a
+					// local of the closure every definition of which is such a parameter or a call on such parameters
+					outside := isParamVar(m, v) && !(v.Pos() >= sc.Lit.Pos() && v.Pos() < sc.Lit.End())
+					if !outside && v.Pos() >= sc.Lit.Pos() && v.Pos() < sc.Lit.End() {
+						defs := m.Defs[v]
+						outside = len(defs) > 0
+						for _, d := range defs {
+							if d.Expr == nil {
+								outside = false
+								continue
+							}
+							fromParam := false
+							ast.Inspect(d.Expr, func(z ast.Node) bool {
+								if pid, ok := z.(*ast.Ident); ok {
+									if pv, ok := objOf(info, pid).(*types.Var); ok && isParamVar(m, pv) && !(pv.Pos() >= sc.Lit.Pos() && pv.Pos() < sc.Lit.End()) {
+										if _, isSig := pv.Type().Underlying().(*types.Signature); isSig {
+											fromParam = true
+										}
+									}
+								}
+								return !fromParam
+							})
+							if !fromParam {
+								outside = false
+							}
+						}
+					}
+					if !outside {
+						return true
+					}
+					n++
+					k++
+					c.Report(c.Armed(sc), fmt.Sprintf("%s/applies-operator#%d", sc, k), call.Pos(), "the operator %s is applied inside the subscribe function: every subscription builds its own copy of the chain, so an operator that keeps state per application (Share, ShareReplay, a connectable) shares nothing between the subscribers of this observable", id.Name)
+					return true
+				})
+			}
+			c.Inc("operator_applications_in_subscribe", n)
+		},
+	}
+}
+
+const controlsApplyAtBuild = `
+func verifControlApplyInSubscribe[T any](source Observable[T], op func(Observable[T]) Observable[T]) Observable[T] {
+	return NewUnsafeObservableWithContext(func(subscriberCtx context.Context, destination Observer[T]) Teardown {
+		sub := op(source).SubscribeWithContext(subscriberCtx, destination)
+		return sub.Unsubscribe
+	})
 }
 `
